@@ -725,6 +725,15 @@ func (e *SpecEnv) call(n SCall) Val {
 	case "ref":
 		v := e.Eval(n.Args[0])
 		return Val{K: KInt, T: e.term(v)}
+	case "offset", "arr":
+		v := e.Eval(n.Args[0])
+		if v.K != KSlice {
+			e.fail("%s() needs a slice", n.Fn)
+		}
+		if n.Fn == "offset" {
+			return Val{K: KInt, T: v.Off}
+		}
+		return Val{K: KInt, T: v.T}
 	case "fieldowner":
 		// fieldowner(p, "Type", "field"): the object whose struct-typed field `field` is *p
 		v := e.Eval(n.Args[0])
